@@ -13,7 +13,8 @@ set +e
 LTV_REPO="$wt" ./check "$prop" --tier "$tier" > "/tmp/try-$prop-$$.log" 2>&1
 rc=$?
 set -e
-grep -E "^(VIOLATION|OK|KNOWN-FINDING|  violation)" "/tmp/try-$prop-$$.log" | cut -c1-300 | head -8
+grep -E "^(KNOWN-FINDING|  violation)" "/tmp/try-$prop-$$.log" | cut -c1-300 | head -6
+grep -E "^(VIOLATION|OK)" "/tmp/try-$prop-$$.log" | cut -c1-300 | tail -n 2
 echo "exit=$rc log=/tmp/try-$prop-$$.log"
 git -C /repo worktree remove --force "$wt"
 git -C /verif checkout -- "evidence/$prop.json" 2>/dev/null || true
